@@ -358,7 +358,13 @@ func runRepl(t *testing.T, c *Case) *Outcome {
 	n := int(c.knob("replicas", 2))
 	w := &replWorld{skew: make([]int64, n), noModel: c.Profile == "converge"}
 	for i := 0; i < n; i++ {
-		w.reps = append(w.reps, newReplica(peerID(i)))
+		pid := peerID(i)
+		if og := int(c.knob("origins", int64(n))); c.knob("owner_receivers", 0) == 1 && i >= og && og > 0 {
+			// a receiver with the peer id of an origin: the owner of the records itself (restarted
+			// with an empty state) is among the nodes that must converge
+			pid = peerID((i - og) % og)
+		}
+		w.reps = append(w.reps, newReplica(pid))
 		w.models = append(w.models, model{})
 		w.skew[i] = c.knob(fmt.Sprintf("skew%d", i), 0)
 	}
@@ -508,8 +514,11 @@ func runRepl(t *testing.T, c *Case) *Outcome {
 			if from < 0 || from >= n || to < 0 || to >= n || from == to {
 				continue
 			}
-			snap := w.reps[from].st.Distributor().LocalState(false)
-			w.reps[to].st.Distributor().MergeRemoteState(snap, false)
+			// memberlist passes join=true on both sides of a Join (also between long-lived nodes),
+			// false in the periodic exchange: the content must not depend on it
+			join := s.G
+			snap := w.reps[from].st.Distributor().LocalState(join)
+			w.reps[to].st.Distributor().MergeRemoteState(snap, join)
 			w.models[to].merge(w.models[from])
 			o.Stats["pushpull"]++
 			got, want := listing(w.reps[to].st), w.models[to].listing()
@@ -815,6 +824,9 @@ func genC08(r *Rand, tier, profile string) *Case {
 	origins := r.Range(1, 3)
 	receivers := r.Range(2, 3)
 	c.Knobs["origins"] = int64(origins)
+	if r.Bool(0.3) {
+		c.Knobs["owner_receivers"] = 1
+	}
 	c.Knobs["replicas"] = int64(origins + receivers)
 	for i := 0; i < origins; i++ {
 		// clock offsets from a few ops to "hours" (in op units), either sign
@@ -917,6 +929,13 @@ func genC10(r *Rand, tier, profile string) *Case {
 	default:
 		c.Steps = append(c.Steps, Step{K: "pushpull", C: 0, N: 1}, Step{K: "pushpull", C: 1, N: 0})
 		c.Knobs["both"] = 1
+	}
+	if r.Bool(0.4) { // the exchange is that of a Join
+		for i := range c.Steps {
+			if c.Steps[i].K == "pushpull" {
+				c.Steps[i].G = true
+			}
+		}
 	}
 	return c
 }
